@@ -196,6 +196,12 @@ def run(ctx):
             if ctx.mine(k):
                 check_case(ctx, {"conf": conf, "src": src})
 
+    from vf import limits
+    for i, (name, src) in enumerate(limits.docs(big=True)):
+        if ctx.mine(i) and len(src) < 30000:   # (the two 130 kB tables are covered by C02/C03/C04; four round trips of 200 000 tokens are too slow here)
+            ctx.count("wl.limits")
+            check_case(ctx, {"conf": {"preset": "js-default"}, "src": src}, minimize=False)
+
     def doc_gen(r):
         x = r.random()
         if x < 0.2:
